@@ -58,3 +58,49 @@ Theorem C02_msgpack_slice_reader_agree :
     fst s = fst r /\ mm_ok s = mm_ok r /\
     prefix_of (mm_output s) (mm_output r) /\ (mm_ok s = true -> mm_output s = mm_output r).
 Proof. exact slice_reader_agree. Qed.
+
+(* JSON (theories/JsonModel.v: serde_json's reader as xt drives it and xt's two
+   document loops; theories/JsonProofs.v).  For EVERY byte string that is valid
+   UTF-8: unless the slice loop stops with "trailing characters" after a scalar
+   document (the known class K-C02-json-adjacent-scalars), slice input and reader
+   input translate the same documents with the same events and end the same way;
+   and always, what the slice loop translated is a prefix of what the reader
+   loop translated. *)
+From XtModel Require Import Utf8 JsonModel JsonProofs.
+
+Theorem C02_json_slice_reader_agree :
+  forall inp : bytes, utf8_valid inp = true ->
+    (~ adjacent_scalars inp -> json_slice inp = json_reader inp) /\
+    prefix_of (jm_output (json_slice inp)) (jm_output (json_reader inp)).
+Proof. exact json_slice_reader_agree. Qed.
+
+(* Input that is not valid UTF-8 is refused by the slice path before it writes
+   anything, so its output is a prefix of the reader path's. *)
+Theorem C02_json_invalid_utf8_prefix :
+  forall inp : bytes, utf8_valid inp = false ->
+    json_slice inp = ([], JFail JUtf8) /\ prefix_of (jm_output (json_slice inp)) (jm_output (json_reader inp)).
+Proof. exact json_invalid_utf8_prefix. Qed.
+
+(* The known class is inhabited and the property does fail on its witness
+   (truefalse: the slice path fails, the reader path translates two documents):
+   the formal record of the finding. *)
+Theorem C02_json_known_class_witness :
+  utf8_valid truefalse = true /\ adjacent_scalars truefalse /\
+  json_slice truefalse = ([], JFail JTrailing) /\
+  json_reader truefalse = ([[EBool true]; [EBool false]], JDone).
+Proof. exact adjacent_scalars_witness. Qed.
+
+(* For EVERY byte string, valid UTF-8 or not (theories/JsonUtf8Proofs.v: what
+   the reader loop accepts is valid UTF-8, so the slice path's up-front check
+   never makes the verdicts differ): outside the known class the two JSON paths
+   give the same verdict, and on success the same documents with the same
+   events; always, the slice path's output is a prefix of the reader path's. *)
+From XtModel Require Import JsonUtf8Proofs.
+
+Theorem C02_json_agree_all :
+  forall inp : bytes,
+    (~ adjacent_scalars inp ->
+       jm_ok (json_slice inp) = jm_ok (json_reader inp) /\
+       (jm_ok (json_slice inp) = true -> json_slice inp = json_reader inp)) /\
+    prefix_of (jm_output (json_slice inp)) (jm_output (json_reader inp)).
+Proof. exact json_agree_all. Qed.
